@@ -3,6 +3,7 @@ CONSTANTS
   WLo = @WLO@
   WHi = @WHI@
   Scale = @SCALE@
+  AnyOrder = @ANYORDER@
   MaxConn = @MAXCONN@
   MaxPicks = @PICKS@
   MaxFlips = @FLIPS@
